@@ -10,12 +10,12 @@ import numpy as np
 
 LEVEL = "exploration"
 EXHAUSTIVE = {"quick": True, "thorough": True}
-RULE = ("all rooted labelled trees on 2..5 nodes (quick) / 2..6 nodes (thorough) x all permutations of the edge list, plus 7-node trees with sampled "
+RULE = ("all rooted labelled trees on 2..5 nodes (quick) / 2..6 nodes (thorough) x all permutations of the edge list, plus 7-9-node trees with sampled "
         "permutations and shuffled node names (thorough); non-trivial = tree with >=3 nodes listed with a child edge before its parent edge; "
         "distinct by the exact (edge listing) tuple")
 ASSUMPTIONS = ["skeleton is a tree given as (src name, dst name) edges directed away from the root"]
 SHARDS = {"quick": 4, "thorough": 16}
-BUDGET = {"quick": 200, "thorough": 1500}
+BUDGET = {"quick": 200, "thorough": 600}
 TIMEOUT = {"quick": 600, "thorough": 3000}
 SELF_SHARDED = True
 MIN_NONTRIVIAL = 50
@@ -86,8 +86,8 @@ def gen_listings(ctx):
                         yield n, list(perm), None
     if ctx.tier == "thorough":
         r = ctx.rng(17, ctx.shard)
-        n = 7
-        for t in range(3000):
+        for t in range(40000):
+            n = 7 + (t % 4 == 3) + (t % 16 == 15)  # mostly 7 nodes (the quantifier's bound), some 8- and 9-node trees beyond it
             seq = r.integers(0, n, n - 2).tolist()
             tree = orient(prufer_to_edges(seq, n), int(r.integers(0, n)), n)
             for _ in range(6):
